@@ -22,6 +22,17 @@ def build(scratch):
     parts.append(ex.impl_block(GC, r"impl<T> CustomReference for BorrowedObject<T>"))
     parts.append("impl<T: ReferenceCustomType + 'static> AsRefMutSteelValFromRef for T {\n    " + ex.fn(GC, "as_mut_ref_from_ref") + "\n}")
     ex.items[-1]["edits"] = ["D1", "D3"]
+    # read-only lent references
+    parts.append(ex.item(GC, "struct", "ReadOnlyTemporary"))
+    parts.append(ex.impl_block(GC, r"impl<T> CustomReference for ReadOnlyTemporary<T>"))
+    parts.append(ex.item(GC, "struct", "ReadOnlyBorrowedObject"))
+    parts.append(ex.impl_block(GC, r"impl<T> CustomReference for ReadOnlyBorrowedObject<T>"))
+    parts.append(ex.impl_block(GC, r"impl<T> ReadOnlyBorrowedObject<T>"))
+    parts.append(ex.impl_block(GC, r"impl<T> Drop for ReadOnlyBorrowedObject<T>"))
+    parts.append(ex.item(GC, "enum", "TemporaryReadonlyView"))
+    parts.append(ex.impl_block(GC, r"impl<T> TemporaryReadonlyView<T>"))
+    parts.append("impl<T: ReferenceCustomType + 'static> AsRefSteelValFromRef for T {\n    " + ex.fn(GC, "as_ref_from_ref") + "\n}")
+    ex.items[-1]["edits"] = ["D1", "D3"]
     text = "\n\n".join(parts) + "\n"
     crate = os.path.join(scratch, "lentx")
     os.makedirs(os.path.join(crate, "src"))
@@ -44,6 +55,8 @@ def build(scratch):
 OBS = {
     "lent_reference_dies_with_the_call": dict(kind="proof", functions=["BorrowedObject::new", "<T as AsRefMutSteelValFromRef>::as_mut_ref_from_ref"],
         contract="a host object lent as a mutable reference: during the call the script's value converts back to exactly that object; a value of another registered type or a non-reference is a ConversionError; once the host has dropped its handle (the call ended) every use of the stored value is an error value, never a dangling pointer"),
+    "readonly_lent_reference_dies_with_the_call": dict(kind="proof", functions=["ReadOnlyBorrowedObject::new", "Drop for ReadOnlyBorrowedObject", "<T as AsRefSteelValFromRef>::as_ref_from_ref", "TemporaryReadonlyView::as_ro"],
+        contract="a host object lent as a shared reference (both representations): during the call the script's value reads exactly that object; after the host dropped its handle every use is an error value; a mutable lent reference or a non-reference is a ConversionError here; dropping the script's read-only value gives the parent's borrow count back"),
     "parent_is_frozen_while_a_child_reference_lives": dict(kind="proof", functions=["SteelVal::get_borrow_flag_if_borrowed_object", "SteelVal::get_borrow_count_if_borrowed_object", "increment_borrow_flag", "<T as AsRefMutSteelValFromRef>::as_mut_ref_from_ref"],
         contract="the flag handed out by get_borrow_flag_if_borrowed_object IS the one the use-time check consults: while it is set (a reference into the object is alive) a mutable use of the object is an error value, and it is usable again once the flag is cleared; shared borrows in flight (borrow count > 0) exclude a mutable use as well; wrong type / non-reference are ConversionErrors"),
 }
